@@ -65,6 +65,13 @@ def run(ctx, res):
         base = gen_lua.gen_program(rng, style=rng.choice(['spaced', 'lines', 'compact']))[0].rstrip(b' \t\r\n')
         extra = rng.choice([b')', b'end', b'?', b'=', b']', b'}', b',', b'then', b'..', b'1 2', b'|= 1'])
         cases.append((base + rng.choice([b' ', b'\n']) + extra + rng.choice([b'', b'', b'\n']), 2, 'malformed', None))
+    # long and deep valid programs (no limit is part of the dialect): the formatter handles them like any other
+    for s_ in (b'if a then x=0\n' + b''.join(b'elseif a==%d then x=%d\n' % (k, k) for k in range(130)) + b'else x=-1 end\n',
+               b''.join(b'if c%d then\n' % k for k in range(60)) + b'y=1\n' + b'end\n' * 60,
+               b'q=' + b'(' * 80 + b'1' + b')' * 80 + b'\n', b'w=' + b'{' * 60 + b'}' * 60 + b'\n',
+               b''.join(b'function f%d() ' % k for k in range(40)) + b'return 0 ' + b'end ' * 40 + b'\n',
+               b''.join(b'a%d=%d\n' % (k, k) for k in range(800)), b'u=1' + b'+1' * 300 + b'\n'):
+        cases.append((s_, rng.randrange(0, 5), 'valid', None))
     for s in (b'x = 1 )', b'x = 1 )\n', b'print(1)\nreturn 2\n?', b'function f()\n x = 1\nend\nend', b'a=1 end'):
         cases.append((s, 2, 'malformed', None))
     for s in (b'a=b=c\n', b'a |= 1\nb=2\n', b'?x,y\n', b'x = 1 +\n', b'f(\n', b'a=1 )\nb=2\n', b'end\n', b'(f or g)(x)\n', b'a=(b or c).d\n', b'a=("s"):rep(2)\n'):
